@@ -489,7 +489,12 @@ int32_t jls_core_fsr_statistics(struct jls_core_s * self, uint16_t signal_id,
     if (entry_count > signal_def->samples_per_data) {
         entry_count = signal_def->samples_per_data;
     }
-    jls_dt_buffer_to_f64(&s->data[0], signal_def->data_type, self->f64_sample_buf->start, entry_count);
+    // whole bytes: the conversion of sub-byte types works on multiples of 8 samples
+    uint32_t convert_count = (entry_size_bits < 8) ? ((entry_count + 7U) & ~7U) : entry_count;
+    if (convert_count > signal_def->samples_per_data) {
+        convert_count = signal_def->samples_per_data;
+    }
+    jls_dt_buffer_to_f64(&s->data[0], signal_def->data_type, self->f64_sample_buf->start, convert_count);
     double * src = &self->f64_sample_buf->start[0];
     double * src_end = &self->f64_sample_buf->start[entry_count];
     if (start_sample_id > chunk_sample_id) {
@@ -515,7 +520,11 @@ int32_t jls_core_fsr_statistics(struct jls_core_s * self, uint16_t signal_id,
             if (entry_count > signal_def->samples_per_data) {
                 entry_count = signal_def->samples_per_data;
             }
-            jls_dt_buffer_to_f64(&s->data[0], signal_def->data_type, self->f64_sample_buf->start, entry_count);
+            convert_count = (entry_size_bits < 8) ? ((entry_count + 7U) & ~7U) : entry_count;
+            if (convert_count > signal_def->samples_per_data) {
+                convert_count = signal_def->samples_per_data;
+            }
+            jls_dt_buffer_to_f64(&s->data[0], signal_def->data_type, self->f64_sample_buf->start, convert_count);
             src = &self->f64_sample_buf->start[0];
             src_end = &self->f64_sample_buf->start[entry_count];
         }
